@@ -163,7 +163,8 @@ Lemma step_cases : forall e c,
        (step e c = mk_config (f :: rest) (c_world c) Unsupported) \/
        (exists op info i f' cg, step e c = exec e i f' (c_world c) rest cg /\
            op = cur_op f /\ op_info e op = Some info /\ decode keccak blockhash op = Some i /\
-           f_stack f' = f_stack f /\ f_static f' = f_static f /\
+           f_stack f' = f_stack f /\
+           (f_kind f', f_self f', f_static f', f_snap f') = (f_kind f, f_self f, f_static f, f_snap f) /\
            oi_min info <= Z.of_nat (length (f_stack f)) <= oi_max info /\
            (f_static f = true -> oi_writes info = false /\ (op = 241 -> sk (f_stack f) 2 = 0))))).
 
